@@ -97,7 +97,7 @@ struct Thread {
   char name[24];
 };
 
-static const int MAXT = 64;
+static const int MAXT = 512;
 static Thread g_threads[MAXT];
 static int g_nthreads = 0;
 static int g_alive = 0;
